@@ -38,8 +38,10 @@ REPORT = "eliot:destination_failure"
 
 
 class RecordingDest(object):
-    def __init__(self, index, mask, exc_index, every, oneshot=None):
+    def __init__(self, index, mask, exc_index, every, oneshot=None, oneshot_raises=False):
         self.index = index
+        # ... and then fails on that very call (gives up: unregisters itself, then raises)
+        self.oneshot_raises = oneshot_raises
         self.mask = set(mask) if oneshot is None else set()
         self.every = every if oneshot is None else None
         # a destination that unregisters itself while it is being called (after `oneshot` further messages)
@@ -53,6 +55,11 @@ class RecordingDest(object):
         k = len(self.offered)
         self.offered.append(dict(message))
         if self.oneshot is not None and k == self.oneshot:
+            if self.oneshot_raises and not (message.get("message_type") == REPORT and REPORT in str(message.get("message"))):
+                e = self.exc_cls("dest%d gives up on call %d" % (self.index, k))
+                self.raised.append(e)
+                Logger._destinations.remove(self)
+                raise e
             self.raised.append(None)
             Logger._destinations.remove(self)
             return
@@ -71,7 +78,7 @@ class RecordingDest(object):
 
 def check(case):
     specs = case["dests"]
-    dests = [RecordingDest(i, d["mask"], d["exc"], d.get("every"), d.get("oneshot")) for i, d in enumerate(specs)]
+    dests = [RecordingDest(i, d["mask"], d["exc"], d.get("every"), d.get("oneshot"), bool(d.get("oneshot_raises"))) for i, d in enumerate(specs)]
     late = case.get("late")  # index of a destination registered mid-run, or None
     if late is not None:
         late = late % len(dests)
@@ -240,6 +247,8 @@ def classify(case, info):
         labels.append("same-exception-class-twice")
     if any(d.get("oneshot") is not None for d in case["dests"]):
         labels.append("a-destination-unregisters-itself-while-called")
+    if any(d.get("oneshot") is not None and d.get("oneshot_raises") for d in case["dests"]):
+        labels.append("a-destination-unregisters-itself-and-raises")
     if case.get("extractors") and info["reports"]:
         labels.append("extractor-registered-for-a-destination's-exception")
     nontrivial = info["dests"] >= 2 and info["partial"] >= 1 and info["fail_on_report"] >= 1
@@ -248,11 +257,12 @@ def classify(case, info):
 
 def strategy():
     dest = st.builds(
-        lambda mask, exc, every, oneshot: {"mask": sorted(set(mask)), "exc": exc, "every": every, "oneshot": oneshot},
+        lambda mask, exc, every, oneshot, oraises: {"mask": sorted(set(mask)), "exc": exc, "every": every, "oneshot": oneshot, "oneshot_raises": bool(oraises and oneshot is not None)},
         st.lists(st.integers(0, 40), max_size=10),
         st.integers(0, len(DEST_EXC) - 1),
         st.sampled_from([None, None, None, None, 1, 2, 3]),
         st.sampled_from([None, None, None, None, None, 0, 1, 3]),
+        st.booleans(),
     )
     return st.builds(
         lambda ex, dests, late, bf, late_at, pos, p: {"program": p, "extractors": ex, "dests": dests, "late": late, "buffer_first": bf, "late_at": late_at, "observer_pos": pos},
